@@ -352,6 +352,31 @@ func VxH19group() {
 	}
 }
 
+// VxH19cmd: CommandToParams emits exactly the lines its command prints, in order — none
+// for a command that prints nothing.
+func VxH19cmd() {
+	n := vxGet("n")
+	vxCmdFree(false, false)
+	wf := vxWF19(1)
+	lines := []string{}
+	for i := 0; i < n; i++ {
+		lines = append(lines, vxShape(vxStr("l"+string(rune('0'+i)), 2, vxClassName), ""))
+	}
+	vxFSPutLines("printed.txt", lines)
+	c2p := NewCommandToParams(wf, "c2p", "vcmd p:printed.txt")
+	prec := vxNewParamRecorder(wf, "prec")
+	prec.InParamPort("in").From(c2p.OutParam())
+	kind := vxRun(func() { wf.Run() })
+	vxAssert(kind == "returned", "C19.src.run-returns")
+	vxReach("ran")
+	vxAssert(len(prec.got) == n, "C19.src.command-every-line-once")
+	for i := range prec.got {
+		if i < n {
+			vxAssert(prec.got[i] == lines[i], "C19.src.command-lines-in-order")
+		}
+	}
+}
+
 // VxH19src: sources emit exactly the given / read / matching items, in order.
 func VxH19src() {
 	wf := vxWF19(1)
